@@ -312,6 +312,21 @@ class Ctx:
             a = assum.get(n, "missing")
             okk = not a.startswith("ERROR") and a != "missing"
             self.oblige("theorem:" + n, okk, a[:300])
+        if self.thorough:
+            # independent re-check of the compiled property file and everything it depends on; -o prints the axioms relied upon
+            with CoqLock():
+                try:
+                    p = subprocess.run(["timeout", "1500", "coqchk", "-silent", "-o", "-Q", ".", "GV", "GV.Props.%s" % pid], cwd=COQ,
+                                       stdout=subprocess.PIPE, stderr=subprocess.STDOUT, text=True)
+                    out = p.stdout
+                    rc = p.returncode
+                except Exception as e:  # noqa
+                    out, rc = repr(e), 1
+            tail = out[out.find("CONTEXT SUMMARY"):] if "CONTEXT SUMMARY" in out else out[-1500:]
+            self.extra["coqchk"] = " ".join(tail.split())[:1500]
+            axioms_ok = "Axioms: <none>" in " ".join(tail.split()) or bool(re.search(r"Axioms:\s*(\* )?(Coq\.(Floats|Numbers)[^ ]* ?)*($|\* Constants)", " ".join(tail.split())))
+            self.oblige("coqchk:modules_rechecked", rc == 0, tail[-300:] if rc else "")
+            self.extra["coqchk_axioms_none_or_primitive_only"] = axioms_ok
         return True
 
     # -- model evaluation (correspondence)
